@@ -19,7 +19,7 @@ RULE = ('programs = product of return kinds (str, bytes, empty, None, list/gener
         'status {200,201,204,304,100,102,404,500} x hooks {none, 2 before + 2 after, failing before-hook, before-hook raising a response} x '
         'error handlers {default, custom returning str, custom raising; thorough adds bytes, None, generator, response object, same error again} x routing outcome {found, 404, 405}. '
         'Non-trivial = anything but a plain str/bytes return with default configuration; distinct = distinct program.')
-REQUIRED = ['programs', 'sr_once', 'validator_agreed', 'content_length_checked', 'no_body_statuses', 'head_requests', 'closed_once_checked',
+REQUIRED = ['self_modifying_hook_requests', 'programs', 'sr_once', 'validator_agreed', 'content_length_checked', 'no_body_statuses', 'head_requests', 'closed_once_checked',
             'hook_traces_checked', 'failing_before_hook', 'handler_exceptions_to_500', 'last_resort_pages', 'outcome_404', 'outcome_405',
             'file_wrapper_used', 'generator_first_next_raises', 'response_yielded_first', 'nested_responses']
 EXHAUSTIVE = {'quick': True, 'thorough': True,
@@ -32,10 +32,13 @@ ASSUMPTIONS = ['failures after the first body chunk and failing after-request ho
 KINDS = ['str', 'bytes', 'str_nonascii', 'empty_str', 'empty_bytes', 'none', 'list_str', 'list_bytes', 'list_leading_empty', 'list_empty',
          'tuple_str', 'gen_str', 'gen_bytes', 'gen_leading_empty', 'gen_all_empty', 'iter_custom', 'iter_custom_bytes', 'filelike', 'filelike_noclose',
          'resp_returned', 'err_returned', 'resp_raised', 'err_raised', 'resp_gen_body', 'gen_yields_resp', 'gen_yields_err', 'nested3',
-         'exception', 'gen_exception_first', 'unsupported_int', 'unsupported_list', 'abort', 'gen_raises_resp', 'dict_false', 'iter_of_lists']
+         'exception', 'gen_exception_first', 'unsupported_int', 'unsupported_list', 'abort', 'gen_raises_resp', 'dict_false', 'iter_of_lists',
+         'iterable_sep_iter', 'iterable_gen_iter', 'iterable_sep_iter_bytes']
 METHODS = ['GET', 'HEAD', 'POST']
 STATUSES = [200, 201, 204, 304, 100, 102, 404, 500]
 HOOKS = ['none', 'two_two', 'before_fails', 'before_raises_resp']
+# hook configurations that edit the hook lists while they are being emitted (run as two-request sequences)
+HOOKS_SELFMOD = ['one_shot', 'lazy_add']
 ERRH = ['default', 'custom_str', 'custom_raises']
 ERRH_MORE = ['custom_bytes', 'custom_none', 'custom_gen', 'custom_resp', 'custom_loop']     # thorough tier
 ROUTES = ['found', '404', '405']
@@ -80,6 +83,34 @@ class FileLike:
         self.st['file_close'] += 1
 
 
+class SepIterable:
+    """closeable iterable whose __iter__ returns a *separate* iterator"""
+
+    def __init__(self, items, st, how='list'):
+        self.items = list(items)
+        self.st = st
+        self.how = how
+        st['iter_close'] = 0
+
+    def __iter__(self):
+        if self.how == 'list':
+            return iter(self._produce())
+        return self._gen()
+
+    def _produce(self):
+        self.st['produced'] = any(self.items)
+        return list(self.items)
+
+    def _gen(self):
+        for it in self.items:
+            if it:
+                self.st['produced'] = True
+            yield it
+
+    def close(self):
+        self.st['iter_close'] += 1
+
+
 def counted_gen(items, st, raise_first=None):
     st['gen_finalised'] = 0
     st['gen_started'] = False
@@ -113,7 +144,8 @@ def make_world(hooks, errh):
         kind = p['kind']
         resp = app.response
         plain = {'str', 'bytes', 'str_nonascii', 'empty_str', 'empty_bytes', 'none', 'list_str', 'list_bytes', 'list_leading_empty', 'list_empty', 'tuple_str',
-                 'gen_str', 'gen_bytes', 'gen_leading_empty', 'gen_all_empty', 'iter_custom', 'iter_custom_bytes', 'filelike', 'filelike_noclose', 'dict_false', 'iter_of_lists'}
+                 'gen_str', 'gen_bytes', 'gen_leading_empty', 'gen_all_empty', 'iter_custom', 'iter_custom_bytes', 'filelike', 'filelike_noclose', 'dict_false', 'iter_of_lists',
+                 'iterable_sep_iter', 'iterable_gen_iter', 'iterable_sep_iter_bytes'}
         if kind in plain:
             resp.status = S
             if p.get('own_cl'):
@@ -154,6 +186,12 @@ def make_world(hooks, errh):
             return CountIter(['', 'c1', 'c2'], st)
         if kind == 'iter_custom_bytes':
             return CountIter([b'c1', b'', b'c2'], st)
+        if kind == 'iterable_sep_iter':
+            return SepIterable(['', 's1', 's2'], st, 'list')
+        if kind == 'iterable_sep_iter_bytes':
+            return SepIterable([b's1', b's2'], st, 'list')
+        if kind == 'iterable_gen_iter':
+            return SepIterable(['', 's1', 's2'], st, 'gen')
         if kind == 'filelike':
             return FileLike(b'file-data-' * 10, st)
         if kind == 'filelike_noclose':
@@ -255,7 +293,7 @@ PLAIN_BODY = {
     'str': b'hello', 'bytes': b'hello', 'str_nonascii': 'héllo 日本'.encode(), 'empty_str': b'', 'empty_bytes': b'', 'none': b'',
     'list_str': 'abcé'.encode(), 'list_bytes': b'abc', 'list_leading_empty': b'xy', 'list_empty': b'', 'tuple_str': b't1t2',
     'gen_str': 'g1g2é'.encode(), 'gen_bytes': b'g1g2', 'gen_leading_empty': b'xy', 'gen_all_empty': b'', 'iter_custom': b'c1c2',
-    'iter_custom_bytes': b'c1c2', 'filelike': b'file-data-' * 10, 'filelike_noclose': b'file-data-' * 10, 'dict_false': b'',
+    'iter_custom_bytes': b'c1c2', 'iterable_sep_iter': b's1s2', 'iterable_gen_iter': b's1s2', 'iterable_sep_iter_bytes': b's1s2', 'filelike': b'file-data-' * 10, 'filelike_noclose': b'file-data-' * 10, 'dict_false': b'',
 }
 
 
@@ -411,7 +449,8 @@ def run_program(ctx, W, p):
         # close discipline
         if ref['handler_ran']:
             k = p['kind']
-            if k in ('iter_custom', 'iter_custom_bytes') and st.get('produced') or (k in ('iter_custom', 'iter_custom_bytes') and no_body):
+            CLOSEABLE = ('iter_custom', 'iter_custom_bytes', 'iterable_sep_iter', 'iterable_gen_iter', 'iterable_sep_iter_bytes')
+            if k in CLOSEABLE and (st.get('produced') or no_body):
                 ctx.count('closed_once_checked')
                 if st.get('produced') and st.get('iter_close') != 1:
                     ctx.violation(f'handler-iterable-closed-{st.get("iter_close")}-times', where, wit)
@@ -446,6 +485,65 @@ def run_program(ctx, W, p):
             ctx.sample({'program': p, 'status': r.status, 'headers': r.headers, 'body': r.body[:60].decode('utf8', 'replace'), 'trace': list(tr)})
 
 
+def selfmod_unit(ctx, unit):
+    """Hooks that remove themselves or add further hooks while they run: every hook registered when the request
+    starts still runs once; what is added during a request first runs in the next one."""
+    import ombott
+    for mode in HOOKS_SELFMOD:
+        for route in ('found', '404', '405'):
+            for method in ('GET', 'HEAD'):
+                app = ombott.Ombott()
+                tr = []
+                app.route('/found', ['GET', 'HEAD'], lambda: tr.append('handler') or 'ok')
+                app.route('/only-put', 'PUT', lambda: 'x')
+                if mode == 'one_shot':
+                    def b1():
+                        tr.append('B1')
+                        app.remove_hook('before_request', b1)
+
+                    def a2():
+                        tr.append('A2')
+                        app.remove_hook('after_request', a2)
+                    app.add_hook('before_request', b1)
+                    app.add_hook('before_request', lambda: tr.append('B2'))
+                    app.add_hook('before_request', lambda: tr.append('B3'))
+                    app.add_hook('after_request', lambda: tr.append('A1'))
+                    app.add_hook('after_request', a2)
+                    app.add_hook('after_request', lambda: tr.append('A3'))
+                    h = ['handler'] if route == 'found' else []
+                    expect = [['B1', 'B2', 'B3'] + h + ['A3', 'A2', 'A1'], ['B2', 'B3'] + h + ['A3', 'A1'], ['B2', 'B3'] + h + ['A3', 'A1']]
+                else:
+                    state = {'added': False}
+
+                    def lazy():
+                        tr.append('A2-lazy')
+                        if not state['added']:
+                            state['added'] = True
+                            app.add_hook('after_request', lambda: tr.append('A-new'))
+                            app.add_hook('before_request', lambda: tr.append('B-new'))
+                    app.add_hook('before_request', lambda: tr.append('B1'))
+                    app.add_hook('after_request', lambda: tr.append('A1'))
+                    app.add_hook('after_request', lazy)
+                    app.add_hook('after_request', lambda: tr.append('A3'))
+                    h = ['handler'] if route == 'found' else []
+                    expect = [['B1'] + h + ['A3', 'A2-lazy', 'A1'], ['B1', 'B-new'] + h + ['A-new', 'A3', 'A2-lazy', 'A1'], ['B1', 'B-new'] + h + ['A-new', 'A3', 'A2-lazy', 'A1']]
+                path = {'found': '/found', '404': '/missing', '405': '/only-put'}[route]
+                for k, exp in enumerate(expect):
+                    del tr[:]
+                    r = call_app(app, make_environ(method, path))
+                    ctx.count('programs')
+                    ctx.count('sr_once' if r.sr_calls == 1 else 'sr_not_once')
+                    ctx.count('hook_traces_checked')
+                    ctx.count('self_modifying_hook_requests')
+                    ctx.case(('selfmod', mode, route, method, k), nontrivial=True)
+                    wit = {'unit': {'kind': 'selfmod'}}
+                    if r.escaped is not None or r.sr_calls != 1 or r.problems:
+                        ctx.violation('malformed-wsgi-response:self-modifying-hooks', f'{mode} {route} {method} request {k}: {r.escaped!r} {r.problems}', wit)
+                    elif tr != exp:
+                        ctx.violation(f'hook-or-handler-trace-differs:{mode}', f'{mode} {route} {method} request {k + 1}: expected {exp}, observed {tr}', wit)
+    ctx.sample({'self_modifying_hooks': HOOKS_SELFMOD, 'requests_per_configuration': 3})
+
+
 def programs(tier):
     for hooks, errh in itertools.product(HOOKS, ERRH + (ERRH_MORE if tier == 'thorough' else [])):
         for route in ROUTES:
@@ -469,7 +567,7 @@ def programs(tier):
 
 def plan(tier, seed):
     combos = list(itertools.product(HOOKS, ERRH + (ERRH_MORE if tier == 'thorough' else [])))
-    return [{'kind': 'product', 'hooks': h, 'errh': e, 'tier': tier} for h, e in combos]
+    return [{'kind': 'product', 'hooks': h, 'errh': e, 'tier': tier} for h, e in combos] + [{'kind': 'selfmod'}]
 
 
 def product_unit(ctx, unit):
@@ -483,6 +581,8 @@ def product_unit(ctx, unit):
 def run_unit(ctx, unit):
     if unit['kind'] == 'product':
         product_unit(ctx, unit)
+    elif unit['kind'] == 'selfmod':
+        selfmod_unit(ctx, unit)
     else:
         p = unit['program']
         W = make_world(p['hooks'], p['errh'])
